@@ -60,7 +60,7 @@ def run(prop, tier, seed, replay):
     from astropy.io import fits
     from yaw import AngularCoordinates, Catalog
 
-    ck = Check(prop, tier, seed, kernels=["k_reader", "k_createplan"], theorems=THEOREMS + ["Yaw.C18P.steps_spec", "Yaw.C18P.passes_spec", "Yaw.C18P.reader_forwarding", "Yaw.C18P.mode_args", "Yaw.C18P.writer_forwarding", "Yaw.C18P.glue_pinned"], lean_modules=["YawVerif.Props.C02", "YawVerif.Props.C02Groupby", "YawVerif.Props.C18Plan"], rule=RULE,
+    ck = Check(prop, tier, seed, kernels=["k_reader", "k_createplan", "k_wrappers"], theorems=THEOREMS + ["Yaw.C05.progress_wrapper_flags", "Yaw.C18P.steps_spec", "Yaw.C18P.passes_spec", "Yaw.C18P.reader_forwarding", "Yaw.C18P.mode_args", "Yaw.C18P.writer_forwarding", "Yaw.C18P.glue_pinned"], lean_modules=["YawVerif.Props.C02", "YawVerif.Props.C02Groupby", "YawVerif.Props.C18Plan", "YawVerif.Props.C05"], rule=RULE,
                assumptions=["np.argsort/np.unique/np.split group the records of a chunk by patch id (order within a group "
                             "unspecified: multisets are compared)",
                             "multiprocessing.Pool.map delivers every part exactly once",
